@@ -122,6 +122,9 @@ pub fn add_rules(kb: &mut KnowledgeBase, rules: Vec<Rule>) {
 /// ```
 pub fn count_rules(kb: &KnowledgeBase, predicate_name: &str) -> usize {
 
+    #[cfg(suiron_verif)]
+    verif_tick();
+
     if query_stopped() { return 0; }
 
     match kb.get(predicate_name) {
